@@ -6,18 +6,33 @@ ID = "C17"
 PROPS_FILE = "Props/C17.v"
 COQ_TARGETS = ["Harness/H17.vo"]
 ALLOWED_AXIOMS = []
+# second tie (translator): coq/Gen/Core.v is regenerated from the source text of C.REPO on every run and
+# coq/Tie/T17.v proves generated definition = hand model (harness/translate/py2coq_core.py)
+EXTRA_PROPS = ["Tie/T17.v"]
+
+
+def prebuild(ctx):
+    import os
+    import sys
+    sys.path.insert(0, os.path.join(C.VERIF, "harness", "translate"))
+    import py2coq_core
+    py2coq_core.prebuild(ctx, C, ["Integer.decode", "Integer.encode", "bin2int", "gray2bin", "bin2gray", "int2bin"])
+
+
 META = {
     "level_text": "Machine-checked proof (Coq) about the literal model of platypus/types.py int2bin/bin2int/bin2gray/gray2bin and Integer.__init__/encode/decode "
                   "(bits = list bool MSB first, integers = Z, so every range min<max and every width, no 2^32 bound): the conversions are mutually inverse for every "
                   "length, every bit string of the variable's length decodes into [min,max] (single wrap-around subtraction), decode(encode v) = v, decode is onto "
                   "[min,max], consecutive integers have encodings at Hamming distance 1, min>=max is rejected.  The model is tied to /repo on every run by exact "
                   "differential correspondence (all values and all bit strings for every width <= 64 (thorough <= 256) and 2^k, 2^k+-1 up to 2^10 (2^13), samples up to "
-                  "2^32, evaluated in Coq by vm_compute) and an independent oracle of the English statement on the real code.",
+                  "2^32, and operation sequences on long-lived Integer instances in which returned bit strings are modified in place and the same value is encoded again; "
+                  "all evaluated in Coq by vm_compute) and an independent oracle of the English statement on the real code.",
     "level_note": "The model replaces the float expression int(math.log(w,2))+1 by Z.log2 w + 1; this is NOT proved, it is tied by correspondence only: exhaustively "
                   "for w <= 2^10 (thorough 2^16), for every 2^k, 2^k-1, 2^k+1 with k <= 32 at seven offsets (negative, zero-crossing, max=0), and random widths < 2^32 "
                   "(the float expression first goes wrong at w = 2^48-1, outside the property; the run records the sweep).  gray2bin([]) raises IndexError and "
                   "int2bin(n<0) does not terminate in the code: both are None in the model, so Gray inversion is stated for length >= 1 and int2bin for n >= 0 "
-                  "(Integer never has 0 bits and encode is only given value >= min).  Trusted: Coq kernel + VM, the harness literal printer/shard runner; the model "
+                  "(Integer never has 0 bits and encode is only given value >= min).  The model is functional: that encode/rand/the conversions hand out fresh lists and leave their "
+                  "arguments alone is a frame obligation checked dynamically (in-place modification of every returned list, then the same request again), not a theorem.  Trusted: Coq kernel + VM, the harness literal printer/shard runner; the model "
                   "is tied to the code only on the enumerated/sampled inputs.  No axioms (all theorems closed under the global context).",
     "technique": "Coq proof over Z / list bool + exact model/implementation correspondence (vm_compute) + oracle on the real code",
 }
@@ -143,6 +158,195 @@ def oracle_i2b(ctx, n, k):
         ctx.violation("bin2int-int2bin-not-inverse", "bin2int(int2bin(%d,%d)) = %r" % (n, k, m), rp)
     if n < (1 << k) and len(b) != k:
         ctx.violation("int2bin-length", "int2bin(%d,%d) has %d bits" % (n, k, len(b)), rp)
+
+
+# ----------------------------------------------------------------------------
+# operation sequences on ONE long-lived Integer instance: encodings handed out are modified in place
+# (what a bit-flip operator does to the list it received) and the same value is requested again
+# ----------------------------------------------------------------------------
+def mutate_inplace(obj, how):
+    """modify a returned object in place; False if it is immutable (then nothing can be corrupted through it)"""
+    try:
+        if how == "flipall":
+            for j in range(len(obj)):
+                obj[j] = not obj[j]
+        elif how == "clear":
+            del obj[:]
+        elif how == "extend":
+            obj.extend([True, False, True])
+        else:
+            for j in how:
+                if j < len(obj):
+                    obj[j] = not obj[j]
+        return True
+    except (TypeError, AttributeError):
+        return False
+
+
+def bstr(b):
+    return "".join("1" if x else "0" for x in b)
+
+
+def run_sequence(ctx, mn, mx, ops, lits=None, frame=None):
+    """ops (JSON): ["enc", v] | ["mut", i, how] | ["dec", i] | ["adj", v] | ["rand", seed]; i indexes the lists returned so far.
+    Every call is checked against the English statement on the spot; (input, output) pairs go to `lits` for the Coq model
+    (which is stateless: the same value must give the same encoding whatever happened before)."""
+    import random as _random
+    from platypus import Integer
+    done = []
+
+    def rp():
+        return {"kind": "sequence", "min": mn, "max": mx, "ops": [list(o) for o in done]}
+
+    t, err = call(Integer, mn, mx)
+    if t is None:
+        ctx.violation("integer-constructor-raises", "Integer(%d,%d) raised %s" % (mn, mx, err), rp())
+        return
+    nb = t.nbits
+    ret = []                 # [object as returned, snapshot at return time]
+    state = {"mut": False}
+
+    def register(obj):
+        if isinstance(obj, list) and any(obj is r[0] for r in ret):
+            if frame is not None:
+                frame.append("Integer(%d,%d): a call returned the very list object handed out by an earlier call (after %d ops)" % (mn, mx, len(done)))
+        ret.append([obj, [bool(x) for x in obj] if isbits(obj) else None])
+
+    def after():
+        return " after an earlier returned bit string was modified in place" if state["mut"] else ""
+
+    def enc(v, keybase):
+        e, err = call(t.encode, v)
+        if e is None or not isbits(e):
+            ctx.violation("encode-raises", "Integer(%d,%d) (one long-lived instance)%s: encode(%d) -> %r %s" % (mn, mx, after(), v, e, err), rp())
+            if lits is not None:
+                lits.append("KEnc %s %s %s None" % (C.z_lit(mn), C.z_lit(mx), C.z_lit(v)))
+            return None
+        register(e)
+        snap = [bool(x) for x in e]
+        if lits is not None:
+            lits.append("KEnc %s %s %s %s" % (C.z_lit(mn), C.z_lit(mx), C.z_lit(v), optbl(snap)))
+        ctx.count()
+        what = None
+        if len(snap) != nb:
+            what = "has %d bits (nbits=%d)" % (len(snap), nb)
+        else:
+            d, err = call(t.decode, list(snap))
+            if d != v:
+                what = "decodes to %r" % (d,)
+        if what:
+            ctx.violation(("encode-after-inplace-mutation" if state["mut"] else keybase),
+                          "Integer(%d,%d) (one long-lived instance)%s: encode(%d) = %s %s" % (mn, mx, after(), v, bstr(snap), what), rp())
+        return snap
+
+    for op in ops:
+        done.append(op)
+        kind = op[0]
+        if kind == "enc":
+            enc(op[1], "decode-encode-roundtrip")
+        elif kind == "mut":
+            if ret and mutate_inplace(ret[op[1] % len(ret)][0], op[2]):
+                state["mut"] = True
+        elif kind == "dec":
+            if not ret:
+                continue
+            obj = ret[op[1] % len(ret)][0]
+            if not (isbits(obj) and len(obj) == nb):
+                continue
+            before = [bool(x) for x in obj]
+            d, err = call(t.decode, obj)
+            ctx.count()
+            if [bool(x) for x in obj] != before and frame is not None:
+                frame.append("Integer(%d,%d).decode modified its argument %s" % (mn, mx, bstr(before)))
+            if lits is not None:
+                lits.append("KDec %s %s %s %s" % (C.z_lit(mn), C.z_lit(mx), bl(before), optz(d if isinstance(d, int) else None)))
+            if not isinstance(d, int):
+                ctx.violation("decode-raises", "Integer(%d,%d).decode(%s) raised %s" % (mn, mx, bstr(before), err), rp())
+            elif not (mn <= d <= mx):
+                ctx.violation("decode-out-of-range", "Integer(%d,%d).decode(%s) = %d is outside the range" % (mn, mx, bstr(before), d), rp())
+        elif kind == "adj":
+            v = op[1]
+            if not (mn <= v < mx):
+                continue
+            e1 = enc(v, "decode-encode-roundtrip")
+            e2 = enc(v + 1, "decode-encode-roundtrip")
+            if e1 is not None and e2 is not None and ham(e1, e2) != 1:
+                ctx.violation("adjacency-after-inplace-mutation" if state["mut"] else "gray-adjacency",
+                              "Integer(%d,%d) (one long-lived instance)%s: encode(%d)=%s and encode(%d)=%s differ in %d bits"
+                              % (mn, mx, after(), v, bstr(e1), v + 1, bstr(e2), ham(e1, e2)), rp())
+        elif kind == "rand":
+            _random.seed(op[1])
+            r1, err = call(t.rand)
+            ctx.count()
+            if r1 is None or not isbits(r1):
+                ctx.violation("rand-raises", "Integer(%d,%d).rand() -> %r %s" % (mn, mx, r1, err), rp())
+                continue
+            register(r1)
+            s1 = [bool(x) for x in r1]
+            d, err = (None, None) if len(s1) != nb else call(t.decode, list(s1))
+            if len(s1) != nb or not isinstance(d, int) or not (mn <= d <= mx):
+                ctx.violation("rand-after-inplace-mutation" if state["mut"] else "rand-outside-range",
+                              "Integer(%d,%d) (one long-lived instance)%s: rand() = %s (nbits=%d) decodes to %r" % (mn, mx, after(), bstr(s1), nb, d), rp())
+                continue
+            if lits is not None:
+                lits.append("KDec %s %s %s %s" % (C.z_lit(mn), C.z_lit(mx), bl(s1), optz(d)))
+            # the caller now flips the genome it was given; the same random state must give the same genome again
+            if mutate_inplace(r1, "flipall"):
+                state["mut"] = True
+            _random.seed(op[1])
+            r2, err = call(t.rand)
+            if r2 is not None and isbits(r2):
+                register(r2)
+            if r2 is None or [bool(x) for x in r2] != s1:
+                ctx.violation("rand-after-inplace-mutation",
+                              "Integer(%d,%d) (one long-lived instance): random.seed(%d); rand() gave %s; after flipping that list in place, random.seed(%d); rand() gives %s"
+                              % (mn, mx, op[1], bstr(s1), op[1], "?" if r2 is None else bstr(r2)), rp())
+
+
+def gen_sequence(rng, mn, mx, nb, length):
+    ops = []
+    nret = 0
+    hot = [rng.randrange(mn, mx + 1) for _ in range(3)] + [mn, mx]
+    while len(ops) < length:
+        v = rng.choice(hot)
+        ops.append(["enc", v]); i = nret; nret += 1
+        how = rng.choice(["flipall", "clear", "extend", sorted(rng.sample(range(nb), rng.randrange(1, nb + 1))), sorted(rng.sample(range(nb), 1))])
+        ops.append(["mut", i, how])
+        if how not in ("clear", "extend"):
+            ops.append(["dec", i])
+        ops.append(["enc", v]); nret += 1
+        if v < mx and rng.random() < 0.7:
+            ops.append(["adj", v]); nret += 2
+        if rng.random() < 0.25:
+            ops.append(["rand", rng.randrange(10000)]); nret += 2
+    return ops
+
+
+def conv_sharing(ctx, fname, args, frame):
+    """a conversion function must give the same answer again after the list it returned was modified in place,
+    and must leave its argument alone; afterwards the inverse laws are re-checked on the same input"""
+    from platypus import types as T
+    f = getattr(T, fname)
+    a1 = [list(x) if isinstance(x, list) else x for x in args]
+    r1, err = call(f, *a1)
+    ctx.count()
+    if not isinstance(r1, list):
+        return
+    s1 = list(r1)
+    if [list(x) if isinstance(x, list) else x for x in a1] != [list(x) if isinstance(x, list) else x for x in args]:
+        frame.append("%s%r modified its argument" % (fname, tuple(args)))
+    if any(r1 is x for x in a1):
+        frame.append("%s%r returned its own argument object" % (fname, tuple(args)))
+    mutate_inplace(r1, "flipall"); mutate_inplace(r1, "extend")
+    for again in (a1, [list(x) if isinstance(x, list) else x for x in args]):     # same argument objects, then fresh copies
+        r2, err = call(f, *again)
+        if not isinstance(r2, list) or list(r2) != s1:
+            frame.append("%s%r returned %r, and after that list was modified in place the same call returns %r" % (fname, tuple(args), s1, r2))
+            break
+    if fname == "int2bin":
+        oracle_i2b(ctx, args[0], args[1])
+    else:
+        oracle_bits(ctx, args[0])
 
 
 # ----------------------------------------------------------------------------
@@ -409,13 +613,56 @@ def run(ctx):
             ctx.sample({"model_impl_disagree": lits[i][:300]})
     ncorr += len(lits)
 
+    # ---- 5. operation sequences on long-lived instances; results modified in place --------------
+    lits = []
+    frame = []
+    seqs = []
+    ranges5 = [(0, 5), (-3, 4), (-7, -2), (0, 16), (-100, 155), (10, 1000), (0, 1), (-1, 0), (0, 255), (0, 256), (-(1 << 31), (1 << 31) - 2)]
+    for _ in range(ctx.scale(30, 300)):
+        w = rng.randrange(1, 1 << rng.randrange(1, 13))
+        ranges5.append((rng.choice([0, -(w // 2) - 1, -w - 9, 3]), w))
+        ranges5[-1] = (ranges5[-1][0], ranges5[-1][0] + w)
+    nops = 0
+    for mn, mx in ranges5:
+        t, err = call(Integer, mn, mx)
+        if t is None:
+            continue
+        ops = gen_sequence(rng, mn, mx, t.nbits, ctx.scale(40, 80))
+        nops += len(ops)
+        seqs.append((mn, mx, ops))
+        run_sequence(ctx, mn, mx, ops, lits, frame)
+        ctx.mark(("sequence", mn, mx, len(ops)))
+    if seqs:
+        ctx.sample({"sequence_on_one_instance": {"range": [seqs[0][0], seqs[0][1]], "ops": seqs[0][2][:9]}})
+    nconv = 0
+    for _ in range(ctx.scale(150, 1500)):
+        k = rng.randrange(1, 40)
+        b = [rng.random() < 0.5 for _ in range(k)]
+        n = rng.randrange(0, 1 << k)
+        conv_sharing(ctx, "bin2gray", [b], frame)
+        conv_sharing(ctx, "gray2bin", [b], frame)
+        conv_sharing(ctx, "int2bin", [n, rng.choice([k, k + 2])], frame)
+        nconv += 3
+    dist["sequences_on_long_lived_instances"] = {"instances": len(seqs), "operations": nops, "calls_shipped_to_coq": len(lits),
+                                                 "conversion_calls_with_result_modified_in_place": nconv,
+                                                 "ops": "enc v / modify a returned list in place (flip all, flip some, clear, extend) / decode it / enc v again / adjacency v,v+1 / rand twice from one random state"}
+    ctx.obligation("frame:results-not-shared-arguments-not-modified(%d sequences, %d conversion calls)" % (len(seqs), nconv), "frame", not frame,
+                   "%d observations; first: %s" % (len(frame), "; ".join(frame[:3])))
+    bad = C.run_coq_cases(ctx, "seq", imports, "c17case", "c17_check", lits, shard=800)
+    if bad is not None:
+        ctx.obligation("correspondence:encode/decode-in-sequences(%d calls on %d long-lived instances)" % (len(lits), len(seqs)), "correspondence", not bad,
+                       "the (stateless) model and the implementation differ inside an operation sequence; first: %s" % (lits[bad[0]] if bad else ""))
+        for i in bad[:3]:
+            ctx.sample({"model_impl_disagree_in_sequence": lits[i]})   # every call of a sequence is checked by the oracle on the spot
+    ncorr += len(lits)
+
     ctx.coverage["input_distribution"] = dist
     ctx.coverage["correspondence_cases"] = ncorr
     ctx.coverage["exhaustive"] = False
     ctx.rule = ("ranges: every width 1..%d at three offsets (zero-based, zero-crossing, negative) and 2^k, 2^k+-1 up to 2^%d, each with ALL values encoded and ALL "
                 "2^nbits strings decoded; %d wider ranges below 2^32 (every 2^k, 2^k+-1, random) with sampled values/strings (ends, middle, around max-min, all-ones, random); "
                 "nbits for every width <= %d, all 2^k/2^k+-1 (k<=32) x 7 offsets, random; conversions on all strings of length <= %d and random longer ones.  "
-                "non-trivial & distinct = (range, string) pairs that take the wrap-around branch, ranges whose strings all map directly, nbits boundary cases "
+                "plus operation sequences on long-lived instances (returned lists modified in place, value re-encoded, rand).  non-trivial & distinct = (range, string) pairs that take the wrap-around branch, operation sequences, ranges whose strings all map directly, nbits boundary cases "
                 "(k, +-1, offset), wide ranges, conversion inputs of length >= 2; each counted once by its full input"
                 % (ctx.scale(64, 256), ctx.scale(10, 13), len(wide), wmax, kmax))
 
@@ -434,6 +681,9 @@ def replay(ctx, data):
             if "bitstring" in rp:
                 strings.append([bool(x) for x in rp["bitstring"]])
             oracle_range(ctx, rp["min"], rp["max"], vals, strings, False, where="replay")
+        ctx.count()
+    elif kind == "sequence":
+        run_sequence(ctx, rp["min"], rp["max"], rp["ops"], None, [])
         ctx.count()
     elif kind == "bits":
         oracle_bits(ctx, rp["bits"])
